@@ -20,7 +20,8 @@ MUST_HIT = ['Outcome.new', 'ShadowModel.compare', 'LinkMirror', 'Atomicity.rejec
             'Outcome.RelateException', 'Outcome.UnrelateException',
             'Outcome.UnknownLinkException', 'Outcome.DeleteException', 'Schema.random',
             'Schema.random-three-or-more-associations', 'Schema.ooaofooa-part',
-            'Schema.ooaofooa-part-with-compound-key']
+            'Schema.ooaofooa-part-with-compound-key', 'Ambient.relate.accepted', 'Ambient.relate.rejected',
+            'Ambient.unrelate.accepted', 'Ambient.delete.accepted', 'Ambient.Suite.tests-passed']
 MUST_REACH = ['xtuml/meta.py:relate', 'xtuml/meta.py:unrelate', 'xtuml/meta.py:_find_link',
               'xtuml/meta.py:Link.connect', 'xtuml/meta.py:Link.disconnect',
               'xtuml/meta.py:MetaClass.delete', 'xtuml/meta.py:Association.formalize']
@@ -453,6 +454,12 @@ def run(ctx):
             ctx.count('random_calls', len(hist))
         except Mismatch as e:
             ctx.violation(e.key, e.what, case=case)
+
+    if ctx.shard == ctx.nshards - 1:
+        # the repository's own tests as a workload: every relate / unrelate / delete they (and the prebuilder, the
+        # interpreter, the model loaders they drive) perform is observed by the link monitors
+        from vf import ambient
+        ambient.report(ctx, ambient.run_suite(ctx, ('links',)), 'Ambient')
 
 
 def one(ctx, name, schema, pool, route, hist):
